@@ -17,6 +17,8 @@ import (
 	"os"
 	"runtime/debug"
 	"sort"
+	"sync/atomic"
+	"time"
 
 	"github.com/blinklabs-io/gouroboros/ledger/allegra"
 	"github.com/blinklabs-io/gouroboros/ledger/alonzo"
@@ -648,9 +650,15 @@ func main() {
 		dumpAfter        string
 	}
 	res := make([]result, len(cases))
+	deadline := c.Deadline(8*time.Minute, 9*time.Minute)
+	var skipped atomic.Int64
 	vlib.Parallel(len(cases), func(i int) {
 		v := cases[i]
 		r := &res[i]
+		if time.Now().After(deadline) {
+			skipped.Add(1)
+			return
+		}
 		br := bases[skey(v.S)]
 		if !br.ok || !br.decoded {
 			return
@@ -712,6 +720,9 @@ func main() {
 		r.listAcc = len(r.attr) == 0
 	})
 
+	if n := skipped.Load(); n > 0 {
+		c.NotExhaustive(fmt.Sprintf("internal deadline reached (machine load): %d of %d cases were not evaluated", n, len(cases)))
+	}
 	// report baselines first
 	undecodable := map[string]int{}
 	for _, s := range order {
